@@ -522,6 +522,103 @@ class Ceremony:
             return True
         return False
 
+    def op_tamper_wire(self):
+        """A single-field edit of the *serialized* transaction in transit (the receiver parses what arrives): the
+        hash-type byte of a signature, one byte inside a DER signature or a public key, an amount, a sequence, the
+        locktime.  The parsed copy is judged like every other tampered copy."""
+        ch, w = self.ch, self.w
+        c = self.pick_copy()
+        if c is None:
+            return
+        ok, raw = self.quiet(lambda: c.t.raw())
+        if not ok:
+            return
+        try:
+            rt = parse_tx(bytes(raw))
+        except Exception:
+            return
+        kind = ch.pick('wire', ['sig_hashtype', 'sig_hashtype', 'sig_der_byte', 'pubkey_byte', 'out_value', 'sequence',
+                                'locktime'])
+        w.op('tamper_wire', cid=c.cid, field=kind)
+
+        def is_sig(b):
+            return isinstance(b, bytes) and 68 <= len(b) <= 74 and b[0] == 0x30
+
+        def is_pub(b):
+            return isinstance(b, bytes) and len(b) in (33, 65) and b[0] in (2, 3, 4)
+
+        def edit_item(b):
+            if kind == 'sig_hashtype' and is_sig(b):
+                return b[:-1] + bytes([ch.pick('w_ht', [2, 3, 0x81, 0x82, 0x83, 0])])
+            if kind == 'sig_der_byte' and is_sig(b):
+                pos = 6 + ch.index('w_pos', 20)
+                return b[:pos] + bytes([b[pos] ^ 1]) + b[pos + 1:]
+            if kind == 'pubkey_byte' and is_pub(b):
+                pos = 1 + ch.index('w_pos', 30)
+                return b[:pos] + bytes([b[pos] ^ 1]) + b[pos + 1:]
+            return None
+        done = False
+        if kind in ('sig_hashtype', 'sig_der_byte', 'pubkey_byte'):
+            order = list(range(len(rt.vin)))
+            start = ch.index('w_in', len(order))
+            for idx in order[start:] + order[:start]:
+                vin = rt.vin[idx]
+                wit = list(vin.witness)
+                for j, item in enumerate(wit):
+                    e = edit_item(item)
+                    if e is not None:
+                        wit[j] = e
+                        vin.witness = wit
+                        done = True
+                        break
+                if done:
+                    break
+                try:
+                    items = rscript.parse_script(vin.script_sig) if vin.script_sig else []
+                except Exception:
+                    items = []
+                for j, item in enumerate(items):
+                    e = edit_item(item)
+                    if e is not None:
+                        items[j] = e
+                        vin.script_sig = rscript.ser_script(items)
+                        done = True
+                        break
+                if done:
+                    break
+        elif kind == 'out_value':
+            o = rt.vout[ch.index('w_o', len(rt.vout))]
+            o.value += ch.pick('w_dv', [1, -1, 1000])
+            done = o.value >= 0
+        elif kind == 'sequence':
+            vin = rt.vin[ch.index('w_in', len(rt.vin))]
+            vin.sequence = (vin.sequence - 1) & 0xffffffff
+            done = True
+        elif kind == 'locktime':
+            rt.locktime = (rt.locktime + 1) & 0xffffffff
+            done = True
+        if not done:
+            w.outcome('tamper_skipped')
+            return
+        raw2 = rt.serialize().hex()
+
+        def parse():
+            t2 = self.BT.Transaction.parse_hex(raw2, network=self.network)
+            for i2, i1 in zip(t2.inputs, c.t.inputs):
+                i2.value = i1.value
+            return t2
+        ok, t2 = self.call('parse', parse)
+        w.fault('msg_corrupt', field='wire_' + kind)
+        if not ok:
+            w.probe('edited_wire_form_rejected_by_parser')
+            return
+        c2 = Copy(t2, c.holder, set(c.signers), tampered=True, via=c.via + ('parsed',))
+        c2.parsed = True
+        c2.context_tampered, c2.resigned = c.context_tampered, c.resigned
+        self.copies.append(c2)
+        w.outcome('parsed', cid=c2.cid)
+        self.check_copy(c2, 'tamper:wire_' + kind)
+
     def op_roundtrip(self):
         """serialize -> parse -> re-attach input values: the parsed copy must verify exactly like the reference says."""
         ch, w = self.ch, self.w
@@ -731,7 +828,7 @@ class Ceremony:
                      ('mine', 1), ('tamper', 1)]
         else:
             table = [('fund', 4), ('create', 6), ('sign', 7), ('handoff', 4), ('deliver', 1), ('tamper', 9), ('roundtrip', 5),
-                     ('send', 2), ('mine', 1)]
+                     ('send', 2), ('mine', 1), ('tamper_wire', 5)]
         kind = ch.weighted('op', table)
         getattr(self, 'op_' + kind)()
 
